@@ -65,6 +65,7 @@ var glTargets = []glTarget{
 	{pkg: "service/metrics", recv: "measuredConn", name: "Write"},
 	{pkg: "service/metrics", recv: "measuredConn", name: "WriteTo"},
 	{pkg: "service/metrics", recv: "measuredConn", name: "ReadFrom"},
+	{pkg: "cmd/outline-ss-server", recv: "", name: "newCipherListFromConfig", listElem: "CipherEntry", opaque: map[string]bool{"NewEncryptionKey": true, "NewCipherList": true}},
 	{pkg: "cmd/outline-ss-server", recv: "Config", name: "Validate", opaque: map[string]bool{"SplitHostPort": true, "ParseIP": true}},
 	{pkg: "prometheus", recv: "tcpConnMetrics", name: "AddAuthenticated", opaque: map[string]bool{"toIPKey": true}},
 	{pkg: "prometheus", recv: "tcpConnMetrics", name: "AddClosed", opaque: map[string]bool{"toIPKey": true}},
@@ -625,7 +626,17 @@ func (f *glFn) composite(x *ast.CompositeLit) string {
 		for _, el := range x.Elts {
 			kv, ok := el.(*ast.KeyValueExpr)
 			if !ok {
-				return f.fail(x, "positional struct literal")
+				// positional: the fields in declaration order
+				if len(x.Elts) != u.NumFields() {
+					return f.fail(x, "positional struct literal with missing fields")
+				}
+				parts = nil
+				for i, e2 := range x.Elts {
+					if f.g.fieldKept(u.Field(i)) {
+						parts = append(parts, lid(u.Field(i).Name())+" := "+f.expr(e2))
+					}
+				}
+				break
 			}
 			k := kv.Key.(*ast.Ident).Name
 			var fv *types.Var
@@ -731,7 +742,7 @@ func (f *glFn) call(c *ast.CallExpr, value bool) string {
 				t := f.typeOf(c.Args[0])
 				switch u := t.Underlying().(type) {
 				case *types.Map:
-					return "GoMap.empty"
+					return "(GoMap.empty : " + f.leanType(t) + ")"
 				case *types.Slice:
 					if len(c.Args) == 2 {
 						return "(List.replicate (" + f.expr(c.Args[1]) + ").toNat " + f.g.zero(u.Elem(), f.t.strBytes) + ")"
@@ -777,6 +788,13 @@ func (f *glFn) call(c *ast.CallExpr, value bool) string {
 	}
 	// --- standard library table ---
 	switch full {
+	case "container/list.New":
+		return "([] : " + f.leanType(f.typeOf(c)) + ")"
+	case "container/list.List.PushBack":
+		if value {
+			return f.fail(c, "PushBack as a value")
+		}
+		return f.assign(sel.X, "(GoRT.pushBack "+f.expr(sel.X)+" "+f.expr(c.Args[0])+")")
 	case "container/list.List.Len":
 		return "(GoRT.len " + f.expr(sel.X) + ")"
 	case "container/list.List.MoveToFront":
@@ -934,6 +952,10 @@ func (f *glFn) call(c *ast.CallExpr, value bool) string {
 		for i := 0; i < sig.Params().Len(); i++ {
 			ats = append(ats, f.leanType(sig.Params().At(i).Type()))
 			as = append(as, f.expr(c.Args[i]))
+		}
+		if len(ats) == 0 {
+			f.addExtra(lid(fn.Name()), f.resultType(sig)) // a function without arguments: its (one) result
+			return lid(fn.Name())
 		}
 		f.addExtra(lid(fn.Name()), strings.Join(ats, " → ")+" → "+f.resultType(sig))
 		return "(" + lid(fn.Name()) + " " + strings.Join(as, " ") + ")"
@@ -1150,6 +1172,13 @@ func (f *glFn) atoms(e string, t types.Type) (string, bool) {
 		return "[Atom.tok (" + e + ").val]", true
 	case strings.HasPrefix(lt, "(ListElem "):
 		return "[Atom.tok (" + e + ").id]", true
+	case strings.HasPrefix(lt, "(List (ListElem "):
+		// a container/list handed to an opaque object: the identities and the values of its elements, in order
+		if le := f.t.listElem; le != "" {
+			if o := f.p.Types.Scope().Lookup(le); o != nil || true {
+				return "((" + e + ").flatMap (fun x__ => [Atom.tok x__.id] ++ " + le + ".atoms x__.Value))", true
+			}
+		}
 	}
 	if st, ok := derefT(t).Underlying().(*types.Struct); ok && isRepoType(derefT(t)) {
 		var parts []string
@@ -1376,8 +1405,8 @@ func (f *glFn) stmt(s ast.Stmt, ind int) {
 		f.block(x.List, ind)
 	case *ast.DeclStmt:
 		gd, ok := x.Decl.(*ast.GenDecl)
-		if ok && gd.Tok == token.CONST {
-			return // constants are folded where they are used
+		if ok && (gd.Tok == token.CONST || gd.Tok == token.TYPE) {
+			return // constants are folded where they are used; a local type is declared like any other structure
 		}
 		if !ok || gd.Tok != token.VAR {
 			f.fail(s, "declaration")
@@ -2241,6 +2270,38 @@ func genCode() {
 			out.p("deriving Repr")
 		}
 		out.p("def %s.zero : %s := { %s }", name, name, strings.Join(zs, ", "))
+		// the value flattened to atoms (for effect logs), when every field has such a form
+		var as []string
+		okAll := true
+		for i := 0; i < st.NumFields(); i++ {
+			fv := st.Field(i)
+			if !g.fieldKept(fv) {
+				continue
+			}
+			lt := g.leanType(fv.Type(), g.strMode[name], nil)
+			switch {
+			case lt == "Int":
+				as = append(as, "[Atom.int x."+lid(fv.Name())+"]")
+			case lt == "String":
+				as = append(as, "[Atom.str x."+lid(fv.Name())+"]")
+			case lt == "Bool":
+				as = append(as, "[Atom.bool x."+lid(fv.Name())+"]")
+			case strings.HasPrefix(lt, "(Opaque "):
+				as = append(as, "[Atom.tok x."+lid(fv.Name())+".val]")
+			default:
+				if _, isS := g.structs[lt]; isS {
+					as = append(as, lt+".atoms x."+lid(fv.Name()))
+				} else {
+					okAll = false
+				}
+			}
+		}
+		if okAll {
+			if len(as) == 0 {
+				as = []string{"[]"}
+			}
+			out.p("def %s.atoms (x : %s) : List Atom := %s", name, name, strings.Join(as, " ++ "))
+		}
 	}
 	for _, key := range g.order {
 		f := g.fns[key]
